@@ -105,6 +105,13 @@ func LoadProgram(repo string, patterns []string, externDir string) (*Program, er
 			case *ssa.Function:
 				prog.indexFunc(x)
 			case *ssa.Type:
+				if nt, ok := x.Type().(*types.Named); ok {
+					for i := 0; i < nt.NumMethods(); i++ {
+						if f := sp.FuncValue(nt.Method(i)); f != nil && f.Synthetic == "" {
+							prog.indexFunc(f)
+						}
+					}
+				}
 				for _, t := range []types.Type{x.Type(), types.NewPointer(x.Type())} {
 					ms := sp.MethodSets.MethodSet(t)
 					for i := 0; i < ms.Len(); i++ {
